@@ -88,6 +88,10 @@ def pool_files(r, tier):
         # a payload longer than 4 KiB (several regions of any chunked MAC computation), damaged at sampled positions
         ({}, [({0x11: b"big"}, bytes((j * 7 + j // 256) % 251 for j in range(4200 + 37)), 4237, False)]),
     ]
+    if not os.environ.get("VERIF_ENVPASS"):
+        # more than 255 components (a count or index kept in one byte wraps here): the sampled damage includes the last bytes of
+        # the file, which are the payload of component 260 (a matter of size, not of the interpreter mode: first pass only)
+        shapes.append(({}, [({}, bytes([(j * 5 + 1) & 0xFF]), 1, False) for j in range(260)]))
     if tier == "thorough":
         for _ in range(20):
             f = L.gen_bf3(r, 2)
